@@ -1,6 +1,8 @@
 (* Extraction of the executable model. ExtrOcamlBasic only: nat, positive, Z stay inductive. *)
 Require Extraction.
 From Coq Require Import ExtrOcamlBasic.
-From JSL Require Import Base.Res Base.ListX SM.Types SM.Util SM.Handler SM.Step SM.Middleware SM.Inv SM.Events.
+From JSL Require Import Base.Res Base.ListX SM.Types SM.Util SM.Handler SM.Step SM.Middleware SM.Inv SM.Events
+  Classic.Jssp Obs.Reward.
 Extraction "../ocaml/gen/sm.ml" step mw_step mw_reset env_step env_makespan get_possible_transitions
-  create_timed_transitions apply_transition is_transition_valid clause_vector event_vector.
+  create_timed_transitions apply_transition is_transition_valid clause_vector event_vector
+  lower_bound total_work reward terminal_term.
